@@ -95,6 +95,14 @@ class AvroJSONEncoder:
     def flush(self):
         self._parser.flush()
 
+    def start_value(self):
+        self._parser.start_value()
+
+    def end_value(self):
+        # Run what is still pending for the value just written; for a record
+        # without fields, which makes no call of its own, that is everything
+        self._parser.drain_actions()
+
     def do_action(self, action):
         if isinstance(action, RecordStart):
             self.write_object_start()
